@@ -83,12 +83,27 @@ fn s_prune(t: &mut Tape, ctx: &mut Ctx) -> Result<(), Failure> {
     for n in names {
         g.witnesses.push((n, Val::Bool(t.bool()), Ty::Bool));
     }
+    let _ = n_envw;
+    prune_compare(t, ctx, &g)
+}
+
+fn dependency_failure(ename: &str, text: &str, wj: &serde_json::Value, detail: serde_json::Value) -> Failure {
+    Failure::new(
+        "c18:dependency-value-prune-corrupts-witness",
+        format!("the unpruned program succeeds under the environment, but RedeemNode::prune of simplicity-lang 0.4.0 (called on it directly) returns a program that does not run under that environment / whose witness values are not restrictions of the original ones: its Value::prune reuses the bit before a kept part as a 0 tag without clearing it\n--- env {ename} ---\n{}\n{}", truncate(text, 2500), wj),
+    )
+    .with(detail)
+}
+
+/// The comparison itself: (program, witness, environment) triples, unpruned verdict against
+/// `satisfy_with_env`.
+fn prune_compare(t: &mut Tape, ctx: &mut Ctx, g: &gen::Generated) -> Result<(), Failure> {
     let style = Style::from_seed(t.next() as u64);
     let text = render::render(&g.prog, &style);
-    require_well_typed(&g, &text)?;
-    let c = compile(&text, to_arguments(&g), t.bool(), "c18")?;
+    require_well_typed(g, &text)?;
+    let c = compile(&text, to_arguments(g), t.bool(), "c18")?;
     let all_envs = envs();
-    let (maps, _) = assignments(t, &g, 8, 2);
+    let (maps, _) = assignments(t, g, 8, 2);
     let mut verdicts = vec![];
     let mut pruned_smaller = false;
     let mut has_case = false;
@@ -96,19 +111,22 @@ fn s_prune(t: &mut Tape, ctx: &mut Ctx) -> Result<(), Failure> {
         let (ename, env) = &all_envs[t.index(all_envs.len())];
         for wm in maps.iter().take(3) {
             ctx.evals(1);
-            let wj = wit_json(&g, wm);
+            let wj = wit_json(g, wm);
             let detail = json!({"program": text, "witness": wj, "env": ename});
             // unpruned program under env
-            let unpruned = pipe::satisfy_and_run(&c.program, &c.info, to_witness_values(&g, wm), None, env);
+            let unpruned = pipe::satisfy_and_run(&c.program, &c.info, to_witness_values(g, wm), None, env);
             let verdict = judge(&unpruned, "c18", &text, &wj, false)?;
             let n_unpruned = if let Outcome::Ran(r) = &unpruned { has_case |= r.n_case > 0; r.n_nodes } else { 0 };
             verdicts.push(verdict);
             // pruned for env
-            let sat = catch(|| c.program.satisfy_with_env(to_witness_values(&g, wm), Some(env)));
+            let sat = catch(|| c.program.satisfy_with_env(to_witness_values(g, wm), Some(env)));
             match (sat, verdict) {
                 (Err(p), _) => return Err(Failure::new(format!("panic:{}", crate::run::panic_site(&p)), format!("satisfy_with_env panicked: {p}\n--- env {ename} ---\n{}\n{}", truncate(&text, 2500), wj)).with(detail)),
                 (Ok(Err(_)), Verdict::Fails) => {
                     ctx.label("pruning:error-as-expected");
+                }
+                (Ok(Err(_)), Verdict::Success) if pipe::dependency_prune_corrupts_witness(&c.program, to_witness_values(g, wm), env) => {
+                    return Err(dependency_failure(ename, &text, &wj, detail));
                 }
                 (Ok(Err(e)), Verdict::Success) => {
                     return Err(Failure::new("c18:pruning-fails-though-program-succeeds", format!("the unpruned program succeeds under the environment but satisfy_with_env returns an error: {e}\n--- env {ename} ---\n{}\n{}", truncate(&text, 2500), wj)).with(detail));
@@ -118,8 +136,16 @@ fn s_prune(t: &mut Tape, ctx: &mut Ctx) -> Result<(), Failure> {
                 }
                 (Ok(Ok(s)), Verdict::Success) => {
                     let out = pipe::run_satisfied(c.info.cmr, c.info.unit_to_unit, &s, env);
-                    let v = judge(&out, "c18:pruned", &text, &wj, false)?;
+                    let v = match judge(&out, "c18:pruned", &text, &wj, false) {
+                        Ok(v) => v,
+                        Err(f) if f.signature.ends_with("mirror-assert-nodes-merged-by-sharing") => return Err(f),
+                        Err(_) if pipe::dependency_prune_corrupts_witness(&c.program, to_witness_values(g, wm), env) => return Err(dependency_failure(ename, &text, &wj, detail)),
+                        Err(f) => return Err(f),
+                    };
                     if v != Verdict::Success {
+                        if pipe::dependency_prune_corrupts_witness(&c.program, to_witness_values(g, wm), env) {
+                            return Err(dependency_failure(ename, &text, &wj, detail));
+                        }
                         return Err(Failure::new("c18:pruned-program-fails-under-its-environment", format!("the pruned program does not succeed under the environment it was pruned for: {}\n--- env {ename} ---\n{}\n{}", out.brief(), truncate(&text, 2500), wj)).with(detail));
                     }
                     if let Outcome::Ran(r) = &out {
@@ -143,8 +169,135 @@ fn s_prune(t: &mut Tape, ctx: &mut Ctx) -> Result<(), Failure> {
         ctx.label("both-verdicts");
     }
     ctx.sample(text.len() as u64, || json!({"program": truncate(&text, 1200), "both_verdicts": both, "pruned_smaller": pruned_smaller}));
-    let _ = n_envw;
     Ok(())
+}
+
+
+/// A type made mostly of sums, so that values have padding and unexecuted arms.
+fn sum_ty(t: &mut Tape, depth: usize) -> Ty {
+    let leaf = |t: &mut Tape| match t.weighted(&[3, 3, 2, 2]) {
+        0 => Ty::UInt([1u16, 2, 4, 8, 16, 32, 64][t.index(7)]),
+        1 => Ty::Bool,
+        2 => Ty::unit(),
+        _ => Ty::UInt([8u16, 16, 32, 64][t.index(4)]),
+    };
+    if depth >= 3 {
+        return leaf(t);
+    }
+    match t.weighted(&[4, 3, 2, 3]) {
+        0 => Ty::either(sum_ty(t, depth + 1), sum_ty(t, depth + 1)),
+        1 => Ty::option(sum_ty(t, depth + 1)),
+        2 => {
+            let n = 2 + t.index(2);
+            Ty::Tuple((0..n).map(|_| sum_ty(t, depth + 1)).collect())
+        }
+        _ => leaf(t),
+    }
+}
+
+/// An expression of type unit that takes `e : ty` apart with matches and patterns only, so that no
+/// use pins the type of an unexecuted part. `val` is the value under the intended assignment; leaves
+/// are mostly compared with it (so the intended assignment mostly succeeds).
+fn destruct(t: &mut Tape, e: Expr, ty: &Ty, val: Option<&Val>, fresh: &mut usize) -> Expr {
+    let mut name = |p: &str| {
+        *fresh += 1;
+        format!("{p}{}", *fresh)
+    };
+    match ty {
+        Ty::Either(a, b) => {
+            let (l, r) = (name("l"), name("r"));
+            let (lv, rv) = match val {
+                Some(Val::Left(x)) => (Some(&**x), None),
+                Some(Val::Right(x)) => (None, Some(&**x)),
+                _ => (None, None),
+            };
+            let on_l = destruct(t, var(&l), a, lv, fresh);
+            let on_r = destruct(t, var(&r), b, rv, fresh);
+            let mut m = match_either(e, &l, (**a).clone(), on_l, &r, (**b).clone(), on_r);
+            if let Expr::Match { left_first, .. } = &mut m {
+                *left_first = t.index(4) != 0;
+            }
+            m
+        }
+        Ty::Option(a) => {
+            let s = name("s");
+            let sv = match val {
+                Some(Val::Some(x)) => Some(&**x),
+                _ => None,
+            };
+            let on_none = if t.index(6) == 0 { block(vec![Stmt::Expr(Expr::Call(CallName::Panic, vec![]))], None) } else { block(vec![], None) };
+            let on_some = destruct(t, var(&s), a, sv, fresh);
+            match_option(e, on_none, &s, (**a).clone(), on_some)
+        }
+        Ty::Bool => match t.index(4) {
+            0 => block(vec![assert_(e)], None),
+            1 => match_bool(e, block(vec![], None), block(vec![], None)),
+            2 => match_bool(e, block(vec![Stmt::Expr(jet("check_lock_height", vec![int([0u128, 1000, 1001][t.index(3)], 32)]))], None), block(vec![], None)),
+            _ => block(vec![let_pat(Pat::Ignore, Ty::Bool, e)], None),
+        },
+        Ty::Tuple(ts) if !ts.is_empty() => {
+            let names: Vec<String> = ts.iter().map(|_| name("p")).collect();
+            let mut stmts = vec![let_pat(Pat::Tuple(names.iter().map(|n| pid(n)).collect()), ty.clone(), e)];
+            for (i, (n, ti)) in names.iter().zip(ts).enumerate() {
+                let vi = match val {
+                    Some(Val::Tuple(vs)) => vs.get(i),
+                    _ => None,
+                };
+                if t.index(5) != 0 {
+                    stmts.push(Stmt::Expr(destruct(t, var(n), ti, vi, fresh)));
+                }
+            }
+            block(stmts, None)
+        }
+        Ty::UInt(b) if [8u16, 16, 32, 64].contains(b) && t.index(3) != 0 => {
+            let k = match val {
+                Some(Val::UInt(_, x)) if t.index(8) != 0 => Expr::Int(x.clone(), *b, LitStyle::Dec),
+                _ => int(t.index(3) as u128, *b),
+            };
+            block(vec![assert_(jet(&format!("eq_{b}"), vec![e, k]))], None)
+        }
+        _ => block(vec![let_pat(Pat::Ignore, ty.clone(), e)], None),
+    }
+}
+
+/// Witnesses of sum-heavy types that are only taken apart.
+fn s_destructure(t: &mut Tape, ctx: &mut Ctx) -> Result<(), Failure> {
+    let n = 1 + t.index(3);
+    let mut witnesses = vec![];
+    let mut stmts = env_statements(t);
+    if t.index(3) == 0 {
+        stmts.clear();
+    }
+    let mut fresh = 0usize;
+    for i in 0..n {
+        let ty = sum_ty(t, 0);
+        let v = crate::valgen::gen_val(t, &ty);
+        let name = format!("W{i}");
+        let e = if t.index(3) == 0 {
+            let x = format!("x{i}");
+            stmts.push(let_(&x, ty.clone(), Expr::Witness(name.clone())));
+            var(&x)
+        } else {
+            Expr::Witness(name.clone())
+        };
+        stmts.push(Stmt::Expr(destruct(t, e, &ty, Some(&v), &mut fresh)));
+        witnesses.push((name, v, ty));
+    }
+    let prog = Program { items: vec![main_fn(stmts)] };
+    let mut names = vec![];
+    walk_program(&prog, &mut |e| {
+        if let Expr::Witness(n) = e {
+            if n.starts_with("ENVW") {
+                names.push(n.clone());
+            }
+        }
+    });
+    for n in names {
+        witnesses.push((n, Val::Bool(t.bool()), Ty::Bool));
+    }
+    let g = gen::Generated { prog, witnesses, params: vec![], labels: Default::default(), intended_verdict: Ok(()), n_holes: 0, perturbed: false };
+    ctx.label("destructure");
+    prune_compare(t, ctx, &g)
 }
 
 /// Shipped examples with their argument / witness files under all 40 environments.
@@ -195,7 +348,7 @@ fn e_examples(i: u64, ctx: &mut Ctx) -> Result<(), Failure> {
 }
 
 pub fn streams() -> Vec<Stream> {
-    vec![Stream { name: "examples", kind: Kind::Enum { count: |_| (crate::seeds::examples().len() * 40) as u64, complete: |_| true, f: e_examples }, isolate: false }, Stream { name: "prune", kind: Kind::Tape { cases: |t: Tier| t.pick(12_000, 300_000), max_len: 420, f: s_prune }, isolate: false }]
+    vec![Stream { name: "examples", kind: Kind::Enum { count: |_| (crate::seeds::examples().len() * 40) as u64, complete: |_| true, f: e_examples }, isolate: false }, Stream { name: "prune", kind: Kind::Tape { cases: |t: Tier| t.pick(12_000, 300_000), max_len: 420, f: s_prune }, isolate: false }, Stream { name: "destructure", kind: Kind::Tape { cases: |t: Tier| t.pick(20_000, 500_000), max_len: 300, f: s_destructure }, isolate: false }]
 }
 
 pub fn def() -> PropertyDef {
